@@ -94,6 +94,15 @@ def thorough_checks(S, mod, prop, seed):
     except Exception:
         out.append({'what': 'leaf oracles', 'kind': 'battery', 'confirmed': False,
                     'error': traceback.format_exc()[-800:], 'counts_as_proof': False})
+    t1 = time.time()
+    try:
+        r = validate.engine_differential(repo=S.interp.repo)
+    except Exception:
+        r = {'what': 'engine differential', 'problems': ['crashed: ' +
+             traceback.format_exc()[-600:]], 'counts_as_proof': False}
+    r['kind'] = 'model-validation'
+    r['seconds'] = round(time.time() - t1, 1)
+    out.append(r)
     for fn, props in ((validate.posixpath_models, None),
                       (validate.quote_models, ('C02', 'C03', 'C09', 'C20', 'C12')),
                       (validate.datetime_models, ('C03', 'C10', 'C09', 'C20', 'C02')),
